@@ -93,4 +93,66 @@ theorem clustersWithinComponents_complete (n : Nat) (A : Nat → Nat → Rat) (c
     · have hne : (c u != c v) = true := by simp [huv]
       rw [hne, Bool.true_or]
 
+/-! ### the test with a forest certificate -/
+
+theorem Connected.left_lt {n : Nat} {A : Nat → Nat → Rat} {u v : Nat} (h : Connected n A u v) : u < n := by
+  induction h with
+  | refl h => exact h
+  | step _ _ _ ih => exact ih
+
+theorem Connected.trans {n : Nat} {A : Nat → Nat → Rat} {u v w : Nat} (h1 : Connected n A u v)
+    (h2 : Connected n A v w) : Connected n A u w := by
+  induction h2 with
+  | refl _ => exact h1
+  | step _ hw hl ih => exact Connected.step ih hw hl
+
+theorem linked_symm (A : Nat → Nat → Rat) (u v : Nat) : linked A u v = linked A v u := by
+  unfold linked; rw [Bool.or_comm]
+
+theorem Connected.symm {n : Nat} {A : Nat → Nat → Rat} {u v : Nat} (h : Connected n A u v) : Connected n A v u := by
+  induction h with
+  | refl h => exact Connected.refl h
+  | @step v w hc hw hl ih =>
+    have hv : v < n := by
+      cases hc with
+      | refl h => exact h
+      | step _ h _ => exact h
+    have h1 : Connected n A w v := Connected.step (Connected.refl hw) hv (by rw [linked_symm]; exact hl)
+    exact h1.trans ih
+
+theorem rootOf_connected (n : Nat) (A : Nat → Nat → Rat) (parent : Nat → Nat) (hf : forestOK n A parent = true)
+    (k : Nat) : ∀ u, u < n → Connected n A u (rootOf parent k u) := by
+  unfold forestOK at hf
+  rw [List.all_eq_true] at hf
+  induction k with
+  | zero => intro u hu; exact Connected.refl hu
+  | succ k ih =>
+    intro u hu
+    have h := hf u (List.mem_range.mpr hu)
+    rw [Bool.and_eq_true, decide_eq_true_eq, Bool.or_eq_true] at h
+    obtain ⟨hp, hl⟩ := h
+    have h1 : Connected n A u (parent u) := by
+      rcases hl with hl | hl
+      · have : parent u = u := by simpa using hl
+        rw [this]; exact Connected.refl hu
+      · exact Connected.step (Connected.refl hu) hp hl
+    exact h1.trans (ih (parent u) hp)
+
+/-- the test with a certificate accepts only labelings whose clusters lie inside connected components, whatever the
+    certificate -/
+theorem clustersWithinForest_sound (n : Nat) (A : Nat → Nat → Rat) (c parent croot : Nat → Nat)
+    (h : clustersWithinForest n A c parent croot = true) :
+    ∀ u v, u < n → v < n → c u = c v → Connected n A u v := by
+  intro u v hu hv huv
+  unfold clustersWithinForest at h
+  rw [Bool.and_eq_true, List.all_eq_true] at h
+  obtain ⟨hf, hr⟩ := h
+  have h1 := hr u (List.mem_range.mpr hu)
+  have h2 := hr v (List.mem_range.mpr hv)
+  rw [beq_iff_eq] at h1 h2
+  have c1 := rootOf_connected n A parent hf n u hu
+  have c2 := rootOf_connected n A parent hf n v hv
+  rw [h1, huv, ← h2] at c1
+  exact c1.trans c2.symm
+
 end SkNet.Modularity
